@@ -26,13 +26,17 @@ def corpus(rng):
     mk('query_big', dict(mtu=576), {}, [F(discover(M, gen=7))] + [F(probe(mac(100 + i), own, mac(100 + i), own, train=i % 2 == 0)) for i in range(30)] + [F(query(M, own, seq=5)), F(query(M, own, seq=6))])
     mk('qlt_icon', {}, dict(icon=icon), [F(discover(M, gen=7)), F(qlt(M, own, 14, 0, seq=2)), F(qlt(M, own, 14, 1466, seq=3)), F(qlt(M, own, 14, 0, seq=4, tos=1))])
     mk('qlt_name_hwid', {}, dict(fname=b'A friendly name', hwid=b'HWID\x01\x02'), [F(discover(M, gen=7)), F(qlt(M, own, 17, 0, seq=2)), F(qlt(M, own, 19, 0, seq=3)), F(qlt(M, own, 99, 0, seq=4))])
+    # an interface whose MTU is not the 1500-byte fallback, answers that fill a frame: a value latched while a getter failed shows afterwards
+    mk('small_mtu_big', dict(mtu=600), dict(icon=icon, fname=b'F' * 700), [F(discover(M, gen=7)), F(qlt(M, own, 14, 0, seq=2))] + [F(probe(mac(100 + i), own, mac(100 + i), own)) for i in range(40)] + [F(query(M, own, seq=5)), F(qlt(M, own, 17, 0, seq=6))])
+    mk('jumbo_big', dict(mtu=9000), dict(icon=icon * 6, fname=b'F' * 700), [F(discover(M, gen=7)), F(qlt(M, own, 14, 0, seq=2))] + [F(probe(mac(100 + i), own, mac(100 + i), own)) for i in range(80)] + [F(query(M, own, seq=5))])
     mk('mixed', dict(mtu=1500), dict(icon=icon[:100]), [F(discover(M, gen=7)), F(probe(mac(5), own, mac(5), own)), F(qlt(M, own, 14, 0, seq=2)), F(emit(M, own, [(1, 0, mac(7), mac(8))], seq=3)),
                                                     F(query(M, own, seq=4)), F(reset(M)), F(discover(mac(2), gen=9)), F(probe(mac(6), own, mac(6), own)), F(query(mac(2), own, seq=5))])
     return res
 CONT = None
-def continuation(own):
+def continuation(own, big=False):
     M = mac(3)
-    fr = [discover(M, gen=11), probe(mac(50), own, mac(50), own), emit(M, own, [(1, 0, mac(7), mac(8))], seq=8), query(M, own, seq=9), qlt(M, own, 14, 0, seq=10), qlt(M, own, 17, 0, seq=11), reset(M), discover(mac(4), gen=1, tos=1)]
+    fr = [discover(M, gen=11), probe(mac(50), own, mac(50), own)] + ([probe(mac(200 + i), own, mac(200 + i), own) for i in range(90)] if big else []) + [
+          emit(M, own, [(1, 0, mac(7), mac(8))], seq=8), query(M, own, seq=9), qlt(M, own, 14, 0, seq=10), qlt(M, own, 17, 0, seq=11), reset(M), discover(mac(4), gen=1, tos=1)]
     L = []
     for f in fr: L.append('frame 0 00 ' + hx(f)); L.append('frame 1 00 ' + hx(f))
     return L
@@ -57,7 +61,7 @@ def scenarios(rng, tier):
             if extra_cfg:   # the fault clears
                 s.lines += cfgl
             s.lines.append('frame 0 00 ' + hx(reset(mac(1)))); s.lines.append('frame 1 00 ' + hx(reset(mac(1))))
-            s.lines += continuation(own)
+            s.lines += continuation(own, big='big' in name)
             s.lines.append('frame 0 00 ' + hx(reset(mac(1)))); s.lines.append('frame 1 00 ' + hx(reset(mac(1))))
         emit_scn('nofault', [])
         for k in range(1, na + 1): emit_scn('alloc%d' % k, ['failalloc %d' % k])
